@@ -621,14 +621,16 @@ mod writers {
         let mut out = vec![];
         for f in files {
             let rel = f.strip_prefix(&root).unwrap().to_string_lossy().trim_start_matches('/').to_string();
-            if rel.starts_with("src/verif_hooks") || rel.ends_with("/tests.rs") { continue; }
+            if rel.starts_with("src/verif_hooks") || rel.ends_with("tests.rs") { continue; }
             let txt = std::fs::read_to_string(&f).unwrap_or_default();
             let code = match txt.find("#[cfg(test)]") { Some(i) => &txt[..i], None => &txt[..] };
             let squeezed: String = code.chars().filter(|c| !c.is_whitespace() || *c == '\n').collect();
             let flat = squeezed.replace('\n', "\u{1}");
             let mut from = 0;
             // tolerate a line break between the field and the call
-            let pats = ["remote_addr.write()", "remote_addr\u{1}.write()"];
+            // also the non-blocking and the fully qualified spellings
+            let pats = ["remote_addr.write()", "remote_addr\u{1}.write()", "remote_addr.try_write()", "remote_addr\u{1}.try_write()",
+                "write(&self.remote_addr)", "write(&conn.remote_addr)", "write(&ice_conn.remote_addr)", "remote_addr.get_mut()"];
             loop {
                 let next = pats.iter().filter_map(|p| flat[from..].find(p).map(|i| i + from)).min();
                 let Some(i) = next else { break };
@@ -639,7 +641,29 @@ mod writers {
         }
         out
     }
+    /// `IceConn` construction sites in non-test code: a NEW connection object is a new, unlatched latch
+    pub fn creators() -> std::collections::BTreeMap<String, usize> {
+        let root = repo();
+        let mut files = vec![];
+        scan(std::path::Path::new(&format!("{root}/src")), &mut files);
+        let mut out = std::collections::BTreeMap::new();
+        for f in files {
+            let rel = f.strip_prefix(&root).unwrap().to_string_lossy().trim_start_matches('/').to_string();
+            if rel.starts_with("src/verif_hooks") || rel.ends_with("tests.rs") || rel == "src/transports/ice/conn.rs" { continue; }
+            let txt = std::fs::read_to_string(&f).unwrap_or_default();
+            let code = match txt.find("#[cfg(test)]") { Some(i) => &txt[..i], None => &txt[..] };
+            let n = code.matches("IceConn::new").count();
+            if n > 0 || rel == "src/peer_connection.rs" { out.insert(rel, n); }
+        }
+        out
+    }
     pub fn run(run: &mut Run) {
+        let cr = creators();
+        run.case("writers", &cr.iter().map(|(f, n)| format!("{f}#new={n}")).collect::<Vec<_>>().join(" "),
+            &cr.keys().map(|f| format!("{f}#new=ok")).collect::<Vec<_>>().join(" "), true);
+        for (f, n) in &cr { let want = if f == "src/peer_connection.rs" { 2 } else { 0 };
+            if *n != want { run.fail(&format!("tie:unmodelled-iceconn-construction-site:{f}"), &format!("writers {f}#new={n}"),
+                "the pc stream covers the two construction sites in peer_connection.rs (start_dtls: primary, ensure_direct_rtp_media_transport: extra); a further site creates a connection whose latch state starts fresh"); } }
         let sites = sites();
         let mut per: std::collections::BTreeMap<String, Vec<usize>> = Default::default();
         per.insert("src/transports/ice/conn.rs".into(), vec![]);
